@@ -34,7 +34,8 @@ def histories(rnd, count, nops, types):
             if r < 0.3:
                 sc.append(set_(h if rnd.random() < 0.95 else nr, ty if rnd.random() < 0.95 else (ty + 1) % 8, rnd.choice(pool)))
             elif r < 0.45:
-                sc.append(bit(rnd.choice(['bitset', 'bitclr']), h, ty, rnd.choice([1, 2, 0x8000, 0xFFFF, 1 << (BITS[ty] - 1), rnd.getrandbits(BITS[ty])])))
+                bty = ty if rnd.random() < 0.85 else rnd.choice([(ty + 3) % 8, (ty + 4) % 8, (ty + 1) % 8])       # operands of another type are refused
+                sc.append(bit(rnd.choice(['bitset', 'bitclr']), h if rnd.random() < 0.95 else nr + rnd.randint(0, 1), bty, rnd.choice([1, 2, 0x8000, 0xFFFF, 1 << (BITS[bty] - 1), rnd.getrandbits(BITS[bty])])))
             elif r < 0.8:
                 a = rnd.randint(lo, hi)
                 n = rnd.randint(1, 6)
